@@ -22,7 +22,7 @@ TEXT = {
          "The emitted EvalRates is executed one ulp below / at / above every declared bound on zero-initialised and NaN-prefilled rate arrays (assignment events), and Fex/Jac are swept up and down through the windows in one process with the rate vector logged at the seam (stale arrays).",
          "rates are alpha-only so that 'active' is observable as k == alpha; bound <= 0 means unbounded"),
  "C09": ("runtime monitoring: compiled index macros, executed Python constants, parsed summary and Enzo tables cross-checked",
-         "Networks with the hard naming conventions are rendered through API, CLI and the Enzo patch; macros are compiled and printed by name, the Python constants modules are executed, the [summary] table and A_Table are parsed; bijectivity, identifier legality and agreement of names/order/counts are checked, and the patch must leave the network's aliases untouched.",
+         "Networks with the hard naming conventions are rendered through API, CLI and the Enzo patch; macros are compiled and printed by name, the Python constants modules are executed, the [summary] table and A_Table are parsed; bijectivity, identifier legality and agreement of names/order/counts are checked, and the patch must leave the network's aliases untouched; the patch is also rendered by a second `naunet render --patch enzo` process under another string-hash seed and its tables are compared with the project's macros.",
          "identifier legality = C identifier and not a Python keyword; orders are compared for mutual agreement, not recomputed"),
  "C10": ("compiler and linker diagnostics as events over a configuration grid, plus one executed call per entry point under sanitizers",
          "A grid of (formats, dust model, back-end, shielding, thermal, network variants) is rendered; every emitted unit is compiled by clang-14 with sanitizers and by g++ -fsyntax-only against API shims, linked with the driver, and EvalRates/Fex/Jac/Renorm are called once. Weakest fit of the family: the deciding observation is a compiler's.",
